@@ -25,6 +25,21 @@ impl VisitMut for Canon {
             e.value = f;
             return;
         }
+        // the formatter spells some literals as the builtin consts INF / NAN / true / false
+        if let ast::Expr::Var(var) = &e.value {
+            if var.ty_sigil.is_none() {
+                if let ast::VarName::Normal { ident, .. } = &var.name {
+                    let lit = match ident.as_raw().to_string().as_str() {
+                        "INF" => Some(ast::Expr::LitFloat { value: f32::INFINITY }),
+                        "NAN" => Some(ast::Expr::LitFloat { value: f32::from_bits(0x7fc00000) }),
+                        "true" => Some(ast::Expr::LitInt { value: 1, format: ast::IntFormat::SIGNED }),
+                        "false" => Some(ast::Expr::LitInt { value: 0, format: ast::IntFormat::SIGNED }),
+                        _ => None,
+                    };
+                    if let Some(lit) = lit { e.value = lit; }
+                }
+            }
+        }
         match &mut e.value {
             ast::Expr::LitInt { format, .. } => *format = ast::IntFormat::SIGNED,
             ast::Expr::LitFloat { value } => self.float_bits.push(value.to_bits()),
@@ -38,14 +53,31 @@ impl VisitMut for Canon {
     }
 }
 
-pub fn canon<T: Visitable + Debug + Clone>(node: &T) -> String {
+struct Folder;
+impl VisitMut for Folder {
+    fn visit_expr(&mut self, e: &mut truth::Sp<ast::Expr>) {
+        ast::walk_expr_mut(self, e);
+        use truth::ScalarValue as V;
+        let lit = |x: &ast::Expr| match x { ast::Expr::LitInt { value, .. } => Some(V::Int(*value)), ast::Expr::LitFloat { value } => Some(V::Float(*value)), _ => None };
+        let new = match &e.value {
+            ast::Expr::UnOp(op, x) if matches!(op.value, ast::UnOpKind::Neg) => lit(&x.value).and_then(|v| op.const_eval(v)),
+            ast::Expr::BinOp(a, op, b) => match (lit(&a.value), lit(&b.value)) {
+                (Some(V::Int(x)), Some(V::Int(y))) if !op.is_const_division_by_zero(&V::Int(y)) => Some(op.const_eval(V::Int(x), V::Int(y))),
+                (Some(V::Float(x)), Some(V::Float(y))) if matches!(op.class(), ast::OpClass::Arithmetic) => Some(op.const_eval(V::Float(x), V::Float(y))),
+                _ => None,
+            },
+            _ => None,
+        };
+        if let Some(v) = new { e.value = v.into(); }
+    }
+}
+
+pub fn canon<T: Visitable + Debug + Clone>(node: &T) -> (String, Vec<u32>) {
     let mut copy = node.clone();
     let mut c = Canon { float_bits: vec![] };
     copy.visit_mut_with(&mut c);
     let dbg = format!("{:?}", copy);
-    let mut out = strip(&dbg);
-    out.push_str(&format!(" FLOATS{:?}", c.float_bits));
-    out
+    (strip(&dbg), c.float_bits)
 }
 
 /// Remove spans and ids from a Debug rendering.
@@ -53,12 +85,36 @@ fn strip(s: &str) -> String {
     lazy_static::lazy_static! {
         static ref SPAN: regex::Regex = regex::Regex::new(r"sp!\(\d+\.\.\d+ => ").unwrap();
         static ref IDS: regex::Regex = regex::Regex::new(r"(NodeId|ResId|LoopId|DefId)\(\d+\)").unwrap();
+        static ref OPT_IDS: regex::Regex = regex::Regex::new(r"(node_id|loop_id|res): Some\(\d+\)").unwrap();
+        static ref RES_IDENT: regex::Regex = regex::Regex::new(r"Ident\(([^,()]*), \d+\)").unwrap();
         static ref NAN: regex::Regex = regex::Regex::new(r"-?NaN").unwrap();
     }
     let s = SPAN.replace_all(s, "sp!(");
     let s = IDS.replace_all(&s, "$1(_)");
+    let s = OPT_IDS.replace_all(&s, "$1: _");
+    let s = RES_IDENT.replace_all(&s, "Ident($1)");
     let s = NAN.replace_all(&s, "NaN");
     s.into_owned()
+}
+
+/// Integer display formats (hex / binary / bool spelling) are formatter hints that the parser does not keep;
+/// idempotence of printing is judged modulo them.
+fn norm_int_formats(t: &str) -> String {
+    lazy_static::lazy_static! {
+        static ref LIT: regex::Regex = regex::Regex::new(r#""(?:[^"\\]|\\.)*"|\b0[xX][0-9a-fA-F]+\b|\b0[bB][01]+\b|\btrue\b|\bfalse\b|\b[0-9]{10}\b"#).unwrap();
+    }
+    LIT.replace_all(t, |c: &regex::Captures| {
+        let m = &c[0];
+        if m.starts_with('"') { return m.to_string(); }
+        if m == "true" { return "1".to_string(); }
+        if m == "false" { return "0".to_string(); }
+        if m.as_bytes()[0].is_ascii_digit() && !(m.len() > 1 && (m[1..2].eq_ignore_ascii_case("x") || m[1..2].eq_ignore_ascii_case("b"))) {
+            // unsigned decimal spelling of a negative value
+            return match m.parse::<u32>() { Ok(v) => (v as i32).to_string(), Err(_) => m.to_string() };
+        }
+        let (radix, digits) = if m[1..2].eq_ignore_ascii_case("x") { (16, &m[2..]) } else { (2, &m[2..]) };
+        match u32::from_str_radix(digits, radix) { Ok(v) => (v as i32).to_string(), Err(_) => m.to_string() }
+    }).into_owned()
 }
 
 fn first_diff(a: &str, b: &str) -> String {
@@ -81,13 +137,26 @@ where T: Visitable + Debug + Clone + truth::Format + truth::parse::Parse, truth:
         Ok(Err(e)) => { e.ignore(); let d = truth.get_captured_diagnostics().unwrap_or_default(); return json!({"w": width, "status": "reparse_error", "text": t, "diag": d[before..].to_string()}); },
         Ok(Ok(y)) => y.value,
     };
-    let (cx, cy) = (canon(x), canon(&y));
+    let ((cx, fx), (cy, fy)) = (canon(x), canon(&y));
     if cx != cy { return json!({"w": width, "status": "ast_differs", "text": t, "detail": first_diff(&cx, &cy)}); }
+    if fx != fy {
+        let pairs: Vec<Value> = fx.iter().zip(&fy).filter(|(a, b)| a != b).map(|(a, b)| json!([a, b])).collect();
+        return json!({"w": width, "status": "float_bits_differ", "text": t, "pairs": pairs, "lens": [fx.len(), fy.len()]});
+    }
     let t2 = match mon::guarded(|| truth::fmt::stringify_with(&y, truth::fmt::Config::new().max_columns(width))) {
         Ok(t) => t,
         Err(p) => return json!({"w": width, "status": "fmt_panic", "panic": mon::panic_json(&p)}),
     };
-    if t2 != t { return json!({"w": width, "status": "not_idempotent", "text": t, "text2": t2}); }
+    if t2 != t {
+        // Integer display formats (hex / binary / bool spelling) are formatter hints the parser does not keep: when the
+        // first text used them, idempotence is judged from the re-parsed script on (t2 -> t3).
+        let hinted = norm_int_formats(&t) != t;
+        let t3 = match mon::guarded(|| truth.parse::<T>("<formatted2>", t2.as_bytes())) {
+            Ok(Ok(z)) => truth::fmt::stringify_with(&z.value, truth::fmt::Config::new().max_columns(width)),
+            _ => String::from("<reparse of second print failed>"),
+        };
+        if !hinted || t3 != t2 { return json!({"w": width, "status": "not_idempotent", "text": t, "text2": t2, "text3": t3}); }
+    }
     let maxline = t.lines().map(|l| l.chars().count()).max().unwrap_or(0);
     json!({"w": width, "status": "ok", "len": t.len(), "lines": t.lines().count(), "maxline": maxline})
 }
@@ -105,9 +174,9 @@ pub fn fmt_rt(j: &Value) -> Result<Value, String> {
             Err(e) => { e.ignore(); return Ok(json!({"stage": "parse", "ok": false, "diag": truth.get_captured_diagnostics().unwrap_or_default()})); }
         };
         if simplify {
-            if let Err(e) = truth::passes::const_simplify::run(&mut x, truth.ctx()) {
-                e.ignore(); return Ok(json!({"stage": "simplify", "ok": false, "diag": truth.get_captured_diagnostics().unwrap_or_default()}));
-            }
+            // fold operations on literals with truth's own operator tables (no name resolution needed):
+            // this yields the negative / non-finite literals that only the decompiler can otherwise create
+            x.visit_mut_with(&mut Folder);
         }
         if let Some(spec) = j.get("build") { install_built_exprs(&mut x, spec)?; }
         let res: Vec<Value> = widths.iter().map(|&w| rt_one(&mut truth, &x, w)).collect();
